@@ -46,7 +46,7 @@ for (_c, _cap, _tier, _sfx) in ((1, 600, 'quick', ''), (1, 1100, 'thorough', '_f
         what='placement of the serialised extensions inside the output packet: exactly the tail of the padding area as the real parser sees it, preceded by 0x01 fill'))
 
 GROUPS.append(dict(name='iterator_next', cls='P', tu='C16_iter.c', entry='h_iter_next', enforce_rec=['opus_extension_iterator_next'], replace=['skip_extension', 'skip_extension_payload'],
-    timeout=2400, mem_gb=12, shards=6, tier='thorough', cbmc_flags=['--object-bits', '12'],
+    timeout=2400, mem_gb=12, shards=4, tier='thorough', cbmc_flags=['--object-bits', '12'],
     assumptions=['the hardening assertion celt_assert(iter->src_len >= 0) ("we skipped this extension earlier") is modelled as a non-returning call without obligation in this group (content-dependent); it is an obligation in the bounded round-trip groups'],
     what='opus_extension_iterator_next (recursive, three loops under loop contracts): representation invariant preserved, result 0 / 1 / OPUS_INVALID_PACKET, a reported extension lies inside the padding, belongs to a frame below nb_frames and frame_max, short ids carry at most one byte; reads only the padding'))
 
